@@ -264,6 +264,10 @@ def instance_pool(ctx, cirq, rng):
     pool.append(('collide/circuit-ops', cirq.Circuit(cirq.CircuitOperation(cirq.FrozenCircuit(cirq.X(qa))), cirq.CircuitOperation(cirq.FrozenCircuit(cirq.X(qb))))))
     pool.append(('collide/grid', [cirq.FrozenCircuit(cirq.H(cirq.GridQubit(0, -1))), cirq.FrozenCircuit(cirq.H(cirq.GridQubit(0, -2)))]))
     pool.append(('gen/result', cirq.ResultDict(params=cirq.ParamResolver({'a': 0.5}), records={'k': np.array([[[0, 1]], [[1, 1]]], dtype=np.uint8)})))
+    pool.append(('gen/circuit-op-symbolic-reps', cirq.CircuitOperation(cirq.FrozenCircuit(cirq.X(qs[0])), repetitions=sympy.Symbol('r'), use_repetition_ids=False)))
+    pool.append(('gen/circuit-op-expr-reps', cirq.CircuitOperation(cirq.FrozenCircuit(cirq.X(qs[0])), repetitions=sympy.Symbol('r') * 2 + 1, use_repetition_ids=False)))
+    pool.append(('gen/duration-symbolic', cirq.Duration(nanos=sympy.Symbol('t'))))
+    pool.append(('gen/wait-shapes', [cirq.WaitGate(cirq.Duration(nanos=2), num_qubits=2), cirq.WaitGate(cirq.Duration(nanos=2), qid_shape=(3,)), cirq.WaitGate(cirq.Duration(picos=sympy.Symbol('t')))]))
     pool.append(('gen/symbolic', (cirq.X ** sympy.Symbol('a')).on(qs[0])))
     pool.append(('gen/expr', cirq.Circuit(cirq.rz(sympy.Symbol('a') * 2 + sympy.pi / 3).on(qs[0]))))
     pool.append(('gen/key-condition', cirq.X(qs[0]).with_classical_controls(cirq.KeyCondition(cirq.MeasurementKey('a'), 0))))
